@@ -145,7 +145,7 @@ def minimise(pool, prop_id, mod, scn, rule, findings, max_exec=150):
 # -------------------------------------------------------------------------------- batch
 def fresh_env(hashseed="0"):
     env = dict(os.environ)
-    env["PYTHONPATH"] = "/repo:" + VERIF
+    env["PYTHONPATH"] = os.environ.get("TDGLSIM_REPO", "/repo") + ":" + VERIF
     env["PYTHONHASHSEED"] = hashseed
     env["PIP_NO_INDEX"] = "1"
     env["OPENBLAS_NUM_THREADS"] = "1"
